@@ -73,8 +73,48 @@ def gen_fine(rng: random.Random, n_handlers=None):
     return prog, ["init", 0, rng.choice(bases) + rng.randint(0, 3) if rng.random() < 0.5 else 0, end]
 
 
+NONDYADIC = [0.1, 0.2, 0.3, 0.7, 0.9, 1.1, 1.3, 1.7, 1.9, 2.3, 2.9, 3.1, 1 / 3, 2 / 3, 4 / 3, 0.6, 1.2, 2.6, 3.3, 0.35, 2.05]
+
+
+def gen_free(rng: random.Random, clock: str) -> dict:
+    """times that are not dyadic (0.1, 0.3, 1/3 ...), used verbatim as floats: handlers schedule at ABSOLUTE
+    times while the clock is such a value; the time an event is given, and the clock its handler sees, must be
+    the requested float bit for bit.  Judged by the oracle only (the Z-scaled model has no such times)."""
+    pool = sorted(rng.sample(NONDYADIC, rng.randint(6, 12)))
+    n = rng.randint(3, 6)
+    prog = [[] for _ in range(n + 1)]
+    end = rng.choice(pool[len(pool) // 2:])
+    for _ in range(rng.randint(2, 4)):
+        t = rng.choice(pool[:len(pool) // 2 + 1])
+        prog[0].append(["sched", rng.choice([["abs", t], ["rel", t]]), rng.choice(S.PRIOS), rng.randint(1, n)])
+    for h in range(1, n + 1):
+        for _ in range(rng.randint(1, 3)):
+            r = rng.random()
+            if r < 0.6:
+                t = rng.choice(pool + [end, end])           # absolute, also exactly at the horizon (and sometimes in the past)
+                prog[h].append(["sched", ["abs", t], rng.choice(S.PRIOS), rng.randint(h + 1, n) if h < n else n])
+            elif r < 0.8 and h < n:
+                prog[h].append(["sched", ["rel", rng.choice([0.1, 0.2, 0.3, 0, 0.7])], rng.choice(S.PRIOS), rng.randint(h + 1, n)])
+            elif r < 0.9:
+                prog[h].append(["cancel", rng.randint(0, 8)])
+            elif h < n:
+                prog[h].append(["sched", ["now"], rng.choice(S.PRIOS), rng.randint(h + 1, n)])
+    prog[n] = [a for a in prog[n] if a[0] != "sched"]       # the last handler schedules nothing: runs are finite
+    return {"clock": clock, "freetime": True, "strategy": "pause", "prog": prog,
+            "cmds": [["init", 0, rng.choice([0, pool[0]]), end], ["start"]]}
+
+
 def gen_case(rng: random.Random, i: int) -> dict:
+    case = gen_case0(rng, i)
+    if i % 4 == 2 and not case.get("freetime"):
+        case["userevents"] = True       # every third event is a user-defined SimEventInterface object
+    return case
+
+
+def gen_case0(rng: random.Random, i: int) -> dict:
     clock = S.CLOCKS[i % len(S.CLOCKS)]
+    if i % 16 in (7, 12):
+        return gen_free(rng, "float" if i % 16 == 7 else "dur")
     if i % 8 in (5, 6):      # clocks dur / durmin slots: fine scale on the Duration (seconds) and float clocks
         prog, init = gen_fine(rng)
         return {"clock": "dur" if i % 8 == 5 else "float", "scale": 40, "strategy": "pause", "prog": prog, "cmds": [init, ["start"]]}
@@ -151,15 +191,20 @@ def oracle(case: dict, obs: dict):
     """Returns (signature, description) of the first violated clause, or None;
     plus a dict of non-triviality facts."""
     facts = {"ties": False, "cancel_pending": False, "illegal": False, "zero_delay": False,
-             "nonzero_start_construct_sched": False, "second_replication": False, "executed": 0}
+             "nonzero_start_construct_sched": False, "second_replication": False, "abs_from_nondyadic_clock": False,
+             "executed": 0}
     why = S.representable(obs)
     if why is not None and "error" in obs:
         return ("driver-error", why), facts
+    free = bool(case.get("freetime"))
+    num = (int, float) if free else int          # free-time cases: verbatim floats, compared bit for bit
+    if free:
+        why = None
     end = None
     for ent in obs["log"]:      # an illegal request that got through shows up first
-        if ent[0] == "sched" and ent[3] == "acc" and isinstance(ent[2], int) and illegal(ent[1], ent[2]):
+        if ent[0] == "sched" and ent[3] == "acc" and isinstance(ent[2], num) and illegal(ent[1], ent[2]):
             return ("illegal-scheduling-accepted", f"request {ent[1]}{TOKENS.get(ent[1][1], '') if len(ent[1]) > 1 and isinstance(ent[1][1], str) else ''} at clock {ent[2]}/4 was accepted"), facts
-    bad_clock = S.log_insane(obs)
+    bad_clock = None if free else S.log_insane(obs)
     if bad_clock:
         return ("clock-not-an-exact-number", bad_clock), facts
     log = obs["log"]
@@ -210,7 +255,7 @@ def oracle(case: dict, obs: dict):
             last_cmd = ent
             if ent[1][0] == "init" and ent[2] == "ok":
                 in_construct = False
-        if ent[0] == "sched" and in_construct and isinstance(ent[2], int):
+        if ent[0] == "sched" and in_construct and isinstance(ent[2], num):
             if ent[2] != start:
                 return ("clock-during-construct-model-is-not-the-replication-start",
                         f"scheduling request {ent[1]} in construct_model saw clock {ent[2]}/4, the replication starts at {start}/4 "
@@ -233,7 +278,10 @@ def oracle(case: dict, obs: dict):
                 k, t, prio = cr
                 want = clk if mode[0] == "now" else (clk + mode[1] if mode[0] == "rel" else mode[1])
                 if t != want:
-                    return ("event-time-wrong", f"request {mode} at clock {clk}/4 produced an event at {t}/4"), facts
+                    return ("event-time-wrong", f"request {mode} at clock {clk!r} produced an event at time {t!r}, not {want!r}"
+                            + ("" if free else " (quarters)")), facts
+                if free and mode[0] == "abs" and clk != 0:
+                    facts["abs_from_nondyadic_clock"] = True
                 if mode[0] != "abs" and t == clk:
                     facts["zero_delay"] = True
                 pending[k] = (t, -prio, k)
@@ -269,7 +317,7 @@ def oracle(case: dict, obs: dict):
             del pending["W"]
         elif ent[0] == "exec":
             k, clk = ent[1], ent[2]
-            if not isinstance(clk, int):
+            if not isinstance(clk, num):
                 return ("clock-not-exact", f"clock {clk}"), facts
             if k in executed:
                 return ("event-executed-twice", f"event {k} executed twice"), facts
@@ -310,6 +358,13 @@ def shrink(case, pred):
     changed = True
     budget = 120
     deadline = _t.time() + 45
+    for key in ("badrepr", "loglevel", "userevents"):        # optional decorations first
+        if key in cur:
+            cand = json.loads(json.dumps(cur))
+            del cand[key]
+            budget -= 1
+            if pred(cand):
+                cur = cand
     while changed and budget > 0 and _t.time() < deadline:
         changed = False
         for j in range(len(cur["cmds"]) - 1, 0, -1):
@@ -400,7 +455,7 @@ def neighbourhood_search(run, pid, seeds, oracle_fn, prepare, rng, per_seed=120)
     return False
 
 
-def main(tier: str, pid=PID, gen=gen_case, oracle_fn=oracle, n_quick=4000, n_thorough=100000,
+def main(tier: str, pid=PID, gen=gen_case, oracle_fn=oracle, n_quick=3200, n_thorough=100000,
          rule=None, extra_tb=None, targets=None, prepare=None, extra_cases=None, nontrivial=None) -> int:
     targets = targets or ["Sim/Case.vo", f"Props/{pid}.vo"]
     run = C.Run(pid, tier)
@@ -462,7 +517,10 @@ def main(tier: str, pid=PID, gen=gen_case, oracle_fn=oracle, n_quick=4000, n_tho
                                "every third case a cancel-stress program: 7-16 events pending at once, handlers that mostly cancel; a quarter of the cases on a "
                                "second exact scale of 2^-40 time units (Duration / float clocks) with event times one to three steps apart and "
                                "priorities / scheduling order arranged against the time order; replication start times 0, positive and negative with now / "
-                               "relative / absolute scheduling inside construct_model; every sixth case a second replication on the used simulator) "
+                               "relative / absolute scheduling inside construct_model; every sixth case a second replication on the used simulator; an eighth of "
+                               "the cases with non-dyadic float times (0.1, 0.3, 1/3 ...) used verbatim and absolute scheduling from handlers at such "
+                               "clocks - oracle only, outside the Z-scaled model; in a quarter of the cases every third event is a user-defined "
+                               "SimEventInterface object handed to schedule_event) "
                                "x 4 clock kinds (int, float, Duration s, Duration min), run with initialize+start; non-trivial = distinct case "
                                "executing >= 3 events and exercising at least one of: time tie, cancel of a pending event, illegal request, zero delay")
     run.cov["feature_histogram"] = hist
